@@ -477,6 +477,7 @@ package server
 //@   at call AddLock assert C01.lock.admit: admissible(lockManager, lock) || unlimitedClass(lockManager, lock)
 //@   at call AddLock assert C01.lock.key: lockManager.lockKey == command.LockKey && lock.manager == lockManager && lock.command == command
 //@   at call AddWaitLock assert C01.lock.queuekey: lockManager.lockKey == command.LockKey && lock.manager == lockManager && lock.command == command
+//@   at call PriorityMutex.Lock after havoc LockDB.status
 //@   at call ProcessLockResultCommand assert C10.lock.refuse: implies(self.status != STATE_LEADER && old(command.Flag)&0x04 == 0, arg2 == protocol.RESULT_STATE_ERROR || (old(command.Flag)&0x08 != 0 && old(command.Timeout) == 0 && arg2 == protocol.RESULT_TIMEOUT && calls(GetOrNewLockManager) == 0))
 //@   at call ProcessLockResultCommand assert C10.lock.nochange: implies(self.status != STATE_LEADER && old(command.Flag)&0x04 == 0 && calls(GetOrNewLockManager) == 1, engineUntouched(lockManager))
 //@   at call RemoveLongExpried assert C06.lock.movekey: arg2 == atsection(currentLock.expriedTime) && atsection(currentLock.longWaitIndex) > 0
@@ -553,6 +554,7 @@ package server
 //@   at call GetLockManager after havoc Lock.*, LockManager.locked, LockManager.currentLock, LockManager.currentData, LockManager.locks, LockManager.waitLocks, LockManager.waited, LockManager.refCount, LockManager.lockKey, LockManager.fastKeyValue, LockManagerLockQueue.*, LockManagerWaitQueue.*, LockQueue.*, protocol.LockDBState.*, LockDB.status, LockDB.currentTime
 //@   at call GetLockManager after assume implies(callresult != nil, sectionInv(self, callresult) && callresult.freeLocks != nil && sectionAssumeOnly(callresult))
 //@   at call PriorityMutex.Unlock assert C02.unlock.monitor: sectionInv(self, lockManager)
+//@   at call PriorityMutex.Lock after havoc LockDB.status
 //@   at call ProcessLockResultCommand assert C10.unlock.refuse: implies(self.status != STATE_LEADER && old(command.Flag)&0x04 == 0 && lockManager != nil, arg2 == protocol.RESULT_STATE_ERROR)
 //@   at call ProcessLockResultCommand assert C10.unlock.nochange: implies(self.status != STATE_LEADER && old(command.Flag)&0x04 == 0 && lockManager != nil, engineUntouched(lockManager))
 //@   at call ProcessLockResultCommand assert C02.unlock.refused: implies((arg2 == protocol.RESULT_UNLOCK_ERROR || arg2 == protocol.RESULT_UNOWN_ERROR || arg2 == protocol.RESULT_LOCK_ACK_WAITING) && lockManager != nil, engineUntouched(lockManager))
